@@ -127,6 +127,24 @@ theorem updLoop_get (s : Store Est) (e : Int) (cid h : Bytes) (old : List Int) (
         · rintro ⟨o', ho, hh⟩; exact ⟨o', List.mem_cons_of_mem _ ho, hh⟩
       simp only [this]
 
+/-- the kept epochs, as a set -/
+theorem updLoop_mem_list (s : Store Est) (e : Int) (cid h : Bytes) (old : List Int) (o : Int) :
+    o ∈ (updLoop s e cid h old).2 ↔ o ∈ old ∧ ¬ (e - o > cleanupDelta) := by
+  rw [updLoop_list, List.mem_filter]
+  simp
+
+/-- the loop's effect on the estimation records depends only on the SET of listed epochs (not on their order or
+multiplicity): the `est…` record is bookkeeping whose exact content is not observable -/
+theorem updLoop_get_congr (s : Store Est) (e : Int) (cid h : Bytes) (l l' : List Int) (hset : ∀ o, o ∈ l ↔ o ∈ l')
+    (k : Bytes) : get (updLoop s e cid h l).1 k = get (updLoop s e cid h l').1 k := by
+  rw [updLoop_get, updLoop_get]
+  have : (∃ o ∈ l, e - o > cleanupDelta ∧ k = estimationKey o cid h) ↔
+      (∃ o ∈ l', e - o > cleanupDelta ∧ k = estimationKey o cid h) := by
+    constructor
+    · rintro ⟨o, ho, hh⟩; exact ⟨o, (hset o).mp ho, hh⟩
+    · rintro ⟨o, ho, hh⟩; exact ⟨o, (hset o).mpr ho, hh⟩
+  simp only [this]
+
 theorem updLoop_mem (s : Store Est) (e : Int) (cid h : Bytes) (old : List Int) (kv : Bytes × Est)
     (hm : kv ∈ (updLoop s e cid h old).1) : kv ∈ s := by
   induction old generalizing s with
